@@ -169,6 +169,9 @@ def execute(case):
                 if not training:
                     bump('probe_eval_forward_on_frozen_coefficients')
                 continue
+            if not bool(torch.isfinite(alpha).all()):
+                bump('samples_skipped_nonfinite_coefficients')      # the statement covers finite values only
+                continue
             bump('samples_checked')
             if theta.shape != alpha.shape:
                 fail('sampled coefficients do not have the shape of the raw ones', 'shape', f'{tag}: {n}', culprit)
